@@ -83,6 +83,7 @@ func c05Fence(r *rand.Rand, name, key string) *fenceDef {
 
 func runC05(w *World) {
 	w.drawWeights()
+	w.drawNet(w.knob)
 	w.weights[akFault] = 0
 	// the webhook client gives up after 5 s: keep virtual time slow relative to
 	// deliveries so that a healthy receiver is never retried (retries are C10's subject)
